@@ -465,6 +465,11 @@ func (b *BaseStore) Load(ctx context.Context, amount int) error {
 		amount = *b.options.MaxHistory
 	}
 
+	if amount <= 0 {
+		// a non-positive amount means no limit
+		amount = -1
+	}
+
 	var localHeads, remoteHeads []*entry.Entry
 	localHeadsBytes, err := b.Cache().Get(ctx, datastore.NewKey("_localHeads"))
 	if err != nil && err != datastore.ErrNotFound {
@@ -575,7 +580,9 @@ func (b *BaseStore) Load(ctx context.Context, amount int) error {
 			span.AddEvent("store-head-loaded")
 
 			span.AddEvent("store-heads-joining")
-			if _, inErr = oplog.Join(l, amount); inErr != nil {
+			// the limit is applied once every head has been merged: Join slices the merged
+			// log by the size it is given and a size above the log's length is out of range
+			if _, inErr = oplog.Join(l, -1); inErr != nil {
 				span.AddEvent("store-heads-joining-failed")
 				// err = fmt.Errorf("unable to join log: %w", err)
 				// TODO: log
@@ -595,6 +602,11 @@ func (b *BaseStore) Load(ctx context.Context, amount int) error {
 
 	// Update the index
 	if len(heads) > 0 {
+		if err := b.trimLog(amount); err != nil {
+			span.AddEvent("store-log-trimming-error", trace.WithAttributes(otkv.String("error", err.Error())))
+			return err
+		}
+
 		span.AddEvent("store-index-updating")
 		if err := b.updateIndex(ctx); err != nil {
 			span.AddEvent("store-index-updating-error", trace.WithAttributes(otkv.String("error", err.Error())))
@@ -605,6 +617,33 @@ func (b *BaseStore) Load(ctx context.Context, amount int) error {
 
 	if err := b.emitters.evtReady.Emit(stores.NewEventReady(b.Address(), b.OpLog().Heads().Slice())); err != nil {
 		return fmt.Errorf("unable to emit event ready: %w", err)
+	}
+
+	return nil
+}
+
+// trimLog keeps the amount most recent entries of the log, if it holds more than that
+func (b *BaseStore) trimLog(amount int) error {
+	b.muJoining.Lock()
+	defer b.muJoining.Unlock()
+
+	oplog := b.OpLog()
+	if amount <= 0 || amount >= oplog.Len() {
+		return nil
+	}
+
+	empty, err := ipfslog.NewLog(b.IPFS(), b.Identity(), &ipfslog.LogOptions{
+		ID:               oplog.GetID(),
+		AccessController: b.AccessController(),
+		SortFn:           b.SortFn(),
+		IO:               b.options.IO,
+	})
+	if err != nil {
+		return fmt.Errorf("unable to trim log: %w", err)
+	}
+
+	if _, err := oplog.Join(empty, amount); err != nil {
+		return fmt.Errorf("unable to trim log: %w", err)
 	}
 
 	return nil
